@@ -216,9 +216,10 @@ let judge_flt args got =
             let want = str ([ List.nth o8 0; List.nth o8 1; List.nth o8 3 ] @ drop 4 o8 @ [ cc c; cc ac; cc c; bc e ]) in
             (* the as-is model runs on the estimates the implementation reported *)
             let dub s = if Zar.equal s a.f.fsig then a.dub else if Zar.equal s b.f.fsig then b.dub else ndigits bz s in
-            let me = fbig_eq a.f b.f in
-            let mc = repr_cmp_same_base bz dub false a.f b.f in
-            let mac = repr_cmp_same_base bz dub true a.f b.f in
+            (* as-is = the bodies REGENERATED from float/src/cmp.rs (DashuGen.CmpGen; proved equal to the hand models) *)
+            let me = fbig_eq_gen a.f b.f in
+            let mc = repr_cmp_same_base_gen bz dub false a.f b.f in
+            let mac = repr_cmp_same_base_gen bz dub true a.f b.f in
             let mrc = mc in
             let mre = Zar.equal a.f.fsig b.f.fsig && Zar.equal a.f.fexp b.f.fexp in
             let asis = str ([ bc me; bc (not me); cc mc; bc (mc = Lt); bc (mc <> Gt); bc (mc = Gt); bc (mc <> Lt) ] @ [ cc mc; cc mac; cc mrc; bc mre ]) in
@@ -276,9 +277,10 @@ let judge_rat is_rbig args got =
             let e = qeq_spec a b and c = qcmp_spec a b in
             let ac = qcmp_spec (qabs a) (qabs b) and ae = qeq_spec (qabs a) (qabs b) in
             let want = str (ord8 e c @ [ cc ac; bc ae ] @ (if is_rbig then [ cc ac; cc ac ] else [])) in
-            let me = if is_rbig then rbig_eq a b else q_repr_eq false a b in
-            let mc = q_repr_cmp false a b and mac = q_repr_cmp true a b in
-            let mae = if is_rbig then rbig_abs_eq a b else q_repr_eq true a b in
+            (* as-is = the bodies REGENERATED from rational/src/cmp.rs *)
+            let me = if is_rbig then rbig_eq_gen a b else q_repr_eq_gen false a b in
+            let mc = q_repr_cmp_gen false a b and mac = q_repr_cmp_gen true a b in
+            let mae = if is_rbig then rbig_abs_eq_gen a b else q_repr_eq_gen true a b in
             let asis = str (ord8 me mc @ [ cc mac; bc mae ] @ (if is_rbig then [ cc mac; cc mac ] else [])) in
             if asis <> g then same := false;
             if want <> g && !bad = None then bad := Some (Printf.sprintf "pair%d%d=%s" i j want);
@@ -292,9 +294,118 @@ let judge_rat is_rbig args got =
       (match !bad with None -> pass ~extra () | Some wnt -> { (fail wnt) with extra = "want=" ^ wnt ^ " " ^ extra })
   | _ -> fail "ok-with-all-fields"
 
+(* ---------------------------------------------------------------- round 3: single operations, the digit estimate *)
+let zero_cap = Zar.zero
+
+(* what the Repr-level model predicts of a result: value, length in words, inline or heap *)
+let shape (r : repr) = (rvalue w r, rlen r, (match r with Inline _ -> true | Heap _ -> false))
+
+let judge_iop args got =
+  match args with
+  | [ op; sa; sb ] ->
+      let a = z sa and b = z sb in
+      let ra = store_fit w zero_cap a and rb = store_fit w zero_cap b in
+      let rua = store_fit w zero_cap (Zar.abs a) and rub = store_fit w zero_cap (Zar.abs b) in
+      let divf f = (match ibig_divform w f zero_cap ra rb with Ok rs -> `Vals rs | Panic _ -> `Panic | _ -> `Other),
+                   (match form_spec f a b with Ok vs -> `Vals vs | Panic _ -> `Panic | _ -> `Other) in
+      let one r v = (`Vals [ r ], `Vals [ v ]) in
+      let bitf f o spec = one (ibig_bit w f o zero_cap ra rb) (spec a b) in
+      let own = function "vv" -> VV | "vr" -> VR | "rv" -> RV | "rr" -> RR | s -> raise (Bad ("form-" ^ s)) in
+      let shamt () = if Zar.sign b < 0 || Zar.numbits b > 20 then raise (Bad "shift-amount") else Zar.to_int b in
+      let model, spec =
+        match op with
+        | "div" -> divf FDiv | "rem" -> divf FRem | "divrem" -> divf FDivRem
+        | "diveu" -> divf FDivEuclid | "remeu" -> divf FRemEuclid | "divremeu" -> divf FDivRemEuclid
+        | "udivrem" | "udiv" | "urem" ->
+            if Zar.sign b = 0 then
+              ((match ubig_div_rem w zero_cap rua rub with Panic _ -> `Panic | _ -> `Other), `Panic)
+            else begin
+              let q = Zar.div (Zar.abs a) (Zar.abs b) and r = Zar.rem (Zar.abs a) (Zar.abs b) in
+              match op with
+              | "udivrem" -> ((match ubig_div_rem w zero_cap rua rub with Ok (x, y) -> `Vals [ x; y ] | _ -> `Other), `Vals [ q; r ])
+              | "udiv" -> ((match ubig_div w zero_cap rua rub with Ok x -> `Vals [ x ] | _ -> `Other), `Vals [ q ])
+              | _ -> ((match ubig_rem w zero_cap rua rub with Ok x -> `Vals [ x ] | _ -> `Other), `Vals [ r ])
+            end
+        | "not" -> one (ibig_not w false zero_cap ra) (Zar.lognot a)
+        | "notref" -> one (ibig_not w true zero_cap ra) (Zar.lognot a)
+        | "shr" -> one (ibig_shift w HShr zero_cap ra b) (Zar.shift_right a (shamt ()))
+        | "shrref" -> one (ibig_shift w HShrRef zero_cap ra b) (Zar.shift_right a (shamt ()))
+        | "shl" -> one (ibig_shift w (HShl false) zero_cap ra b) (Zar.shift_left a (shamt ()))
+        | "shlref" -> one (ibig_shift w (HShl true) zero_cap ra b) (Zar.shift_left a (shamt ()))
+        | _ -> (
+            match String.index_opt op '_' with
+            | Some i -> (
+                let f = String.sub op 0 i and o = own (String.sub op (i + 1) (String.length op - i - 1)) in
+                match f with
+                | "and" -> bitf SAnd o Zar.logand
+                | "or" -> bitf SOr o Zar.logor
+                | "xor" -> bitf SXor o Zar.logxor
+                | _ -> raise (Bad ("iop-" ^ op)))
+            | None -> raise (Bad ("iop-" ^ op)))
+      in
+      let cls = "iop-" ^ (match String.index_opt op '_' with Some i -> String.sub op 0 i | None -> op) in
+      (match spec, got with
+       | `Panic, "panic" :: c :: _ ->
+           let same = (model = `Panic) in
+           if c = "DivideBy0" then pass ~extra:(Printf.sprintf "asis=%s cls=%s:panic" (if same then "same" else "diff") cls) ()
+           else fail "panic-DivideBy0"
+       | `Panic, _ -> fail "panic-DivideBy0"
+       | `Vals vs, "ok" :: toks when List.length toks = 4 * List.length vs ->
+           let outs = List.mapi (fun i v ->
+             match take 4 (drop (4 * i) toks) with
+             | [ sv; scap; sn; sinl ] -> read_int ("out" ^ string_of_int i) (Some v) [ sv; scap; sn; sinl; "" ]
+             | _ -> raise (Bad "shape")) vs in
+           (* model fidelity: the composed Repr-level model predicts value, length and inline/heap of every output *)
+           let same = (match model with
+             | `Vals rs -> List.length rs = List.length outs &&
+                 List.for_all2 (fun r o -> let (v, n, inl) = shape r in Zar.equal v o.iv && Zar.equal n o.n && inl = o.inl && canonicalb w r) rs outs
+             | _ -> false) in
+           let lens = String.concat "-" (List.map lenclass outs) in
+           pass ~extra:(Printf.sprintf "asis=%s cls=%s:%s" (if same then "same" else "diff") cls lens) ()
+       | `Vals _, _ -> fail "ok-with-every-output"
+       | _ -> fail "spec")
+  | _ -> fail "iop-args"
+
+let dub_base = function "2" -> 2 | "3" -> 3 | "7" -> 7 | "a" -> 10 | "10" -> 16 | "64" -> 100 | "ffff" -> 65535 | s -> raise (Bad ("base-" ^ s))
+
+let judge_dub args got =
+  match args, got with
+  | [ sb; _ssig ], [ "ok"; ss; slb; sub; sblb; sbub; sdub; sdlb ] ->
+      let bb = dub_base sb in
+      let bz = Zar.of_int bb in
+      let s = z ss in
+      let dub = usz sdub and dlb = usz sdlb in
+      if Zar.sign s = 0 then (if Zar.sign dub = 0 && Zar.sign dlb = 0 then pass ~nt:false ~extra:"asis=same cls=dub-zero" () else fail "0-0")
+      else begin
+        let lb = f_of_bits (usz slb) and ub = f_of_bits (usz sub) and blb = f_of_bits (usz sblb) and bub = f_of_bits (usz sbub) in
+        (* as-is: the arms regenerated from float/src/repr.rs, on Flocq's binary32, fed with the reported estimates *)
+        let m = digits_ub_est bz lb ub blb bub in
+        let same = Zar.equal m dub && Zar.equal (digits_lb_est bz lb ub blb bub) dlb in
+        (* the hypotheses of C05_digits_ub_contract on the reported estimates (C12 judges log2_bounds itself) *)
+        let chk lower bits p = 
+          let rec go = function
+            | [] -> 2
+            | pr :: rest -> let r = Zar.to_int (log2_bound_check (Zar.of_int pr) lower (f32_decode (usz bits)) p Zar.one) in if r = 2 then go rest else r in
+          go [ 96; 320; 1200 ] in
+        let hu = chk false sub (Zar.abs s) in
+        let hb = if bb = 2 || bb = 10 then 1 else chk true sblb bz in
+        let hyp = if hu = 0 || hb = 0 then "violated" else if hu = 2 || hb = 2 then "undecided" else "ok" in
+        let nd = ndigits bz s in
+        (* specification: an over-estimate of the digit count (|s| < B^digits_ub, the strong form of the hypothesis of the
+           comparison theorems) resp. an under-estimate *)
+        let extra = Printf.sprintf "asis=%s cls=dub-base%d:hyp-%s:slack%s" (if same then "same" else "diff") bb hyp (Zar.to_string (Zar.sub dub nd)) in
+        if not (Zar.lt (Zar.abs s) (Zar.pow bz (Zar.to_int dub))) then { (fail "digits_ub>=digits") with extra = "want=digits_ub>=" ^ Zar.to_string nd ^ " " ^ extra }
+        else if Zar.gt dlb nd then { (fail "digits_lb<=digits") with extra = "want=digits_lb<=" ^ Zar.to_string nd ^ " " ^ extra }
+        else if hyp = "violated" then { (fail "log2_bounds-enclose") with extra = "want=log2_bounds-enclose " ^ extra }
+        else pass ~extra ()
+      end
+  | _ -> fail "ok-sig-4-estimates-ub-lb"
+
 let judge op args got =
   try
     match op with
+    | "iop" -> judge_iop args got
+    | "dub" -> judge_dub args got
     | "uint" -> judge_int false args got
     | "int" -> judge_int true args got
     | "flt" -> judge_flt args got
